@@ -324,13 +324,14 @@ HARNESSES = {
             {"fixed": {"k": 1, "kind": "switched", "nmne": False}, "timeout": 280},
             {"fixed": {"k": 1, "kind": "routed", "nmne": True}, "timeout": 280},
             {"fixed": {"k": 1, "kind": "routed", "nmne": True, "flatten": True}, "timeout": 500},
+            {"fixed": {"k": 1, "kind": "firewalled", "nmne": True}, "timeout": 400},
             {"fixed": {"k": 1, "kind": "switched", "nmne": False, "variant": "surplus"}, "timeout": 280},
             {"fixed": {"k": 1, "kind": "switched", "nmne": False, "variant": "padded"}, "timeout": 280},
         ],
         "thorough": [{"fixed": {"k": 2, "kind": kd, "nmne": nm, "a0": a}, "timeout": 1500} for kd in ("switched", "routed") for nm in (True, False) for a in range(0, 54, 3)]
         + [{"fixed": {"k": 2, "kind": "switched", "nmne": True, "variant": v, "a0": a}, "timeout": 1500} for v in ("surplus", "padded") for a in (24, 39, 41)],
         "cover": ["env_done"],
-        "bounds": {"quick": "k=1 step with every action of the map, M in {1,2}; NMNE capture on/off; nested and flattened", "thorough": "k=2, every third action as first action"},
+        "bounds": {"quick": "k=1 step with every action of the map, M in {1,2}; switched, routed and firewall-with-DMZ topologies; NMNE capture on/off; nested and flattened", "thorough": "k=2, every third action as first action"},
     },
     "traffic_fp_smt": {
         "fn": traffic_fp_smt,
